@@ -534,6 +534,33 @@ def run(ctx, extra_defs=()):
         reach = cn_.reachable_blocks(cut_edges=g_un, cut_blocks=[cn_.point_of(rm_[0])[0]])
         okr = bool(g_un) and cn_.exit not in reach and bool(atoms) and all(not q.reaches(cn_, w_, a_) for w_ in zero_w for a_ in atoms)
     ctx.check(okr, R14, 'io_event_canceler:reactor-forgets-the-descriptor', 'a cancelled descriptor stays registered in the reactor (the next connection that gets the same number is never armed)', cn_.where)
+    # the epoll reactor's own record of what each descriptor is armed for follows every call, also one whose epoll_ctl failed
+    eps = [g for g in P.fns.values() if g.short == 'select' and (g.record or '').endswith('epoll_reactor') and g.body is not None]
+    if eps:
+        ep = eps[0]
+        flp = q.param_by_index(ep, 1)
+        ws_ = [w_ for w_ in q.field_writes(ep, 'events_') if flp in ep.subtree_refs(ep.N(w_)['ch'][-1])] or \
+              [i for i in ep.all_nodes() if ep.N(i)['k'] in ('BinaryOperator', 'CXXOperatorCallExpr') and ep.N(i).get('op') == '=' and any(model.strip_targs(x).endswith('::events_') for x in ep.subtree_refs(ep.N(i)['ch'][-2])) and flp in ep.subtree_refs(ep.N(i)['ch'][-1])]
+        g_chk = q.call_gate(ep, lambda i: q.short_of(ep.callee(i) or '') == 'check', True)
+        oke = len(ws_) == 1 and bool(g_chk)
+        if oke:
+            for (b_, s_, lab_, tag_) in g_chk:
+                if ep.exit in ep.reachable_blocks(start=s_, cut_blocks=[ep.point_of(ws_[0])[0]]):
+                    oke = False
+        ctx.check(oke, R14, 'epoll_reactor::select:record-updated-on-every-path', 'the per-descriptor record of armed events is not updated on some path (after a failed epoll_ctl): a later descriptor with the same number is '
+                  'never armed, or modified instead of added', ep.where)
+    else:
+        ctx.notes.append('C17.R14: epoll reactor not compiled in this configuration')
+    # the device's record of the descriptor's blocking mode follows every change of that mode
+    snb = [g for g in P.fns.values() if g.bname == 'booster::aio::basic_io_device::set_non_blocking' and len(g.params) == 2 and g.body is not None]
+    if snb:
+        f_ = snb[0]
+        mode_calls = [i for i in f_.calls() if (f_.callee(i) or '') in ('fcntl', 'ioctl', 'ioctlsocket')]
+        wr_ = [w_ for w_ in q.field_writes(f_, 'basic_io_device::nonblocking_was_set_') if f_.ref_of(f_.N(w_)['ch'][-1]) == q.param_by_index(f_, 0)]
+        setters = [i for i in mode_calls if len(f_.args(i)) >= 2 and f_.const_value(f_.args(i)[1]) not in (3,)]      # F_GETFL = 3 only reads
+        okn = len(wr_) == 1 and bool(setters) and all(q.reaches(f_, i, wr_[0]) for i in setters)
+        ctx.check(okn, R14, 'basic_io_device::set_non_blocking:record-follows-the-descriptor', 'after the mode of the descriptor was changed the cached mode is not updated: a later set_non_blocking_if_needed() skips the change it '
+                  'should make (a synchronous write then runs on a non-blocking socket and treats EAGAIN as fatal)', f_.where)
     ctx.floor(R14, 3)
 
     # ---- R8 wake after enqueue
@@ -625,6 +652,14 @@ def run(ctx, extra_defs=()):
                     continue
                 earg = a[1]
                 ctx.check(f.ref_of(earg) == ev, R10, '%s:%s:completion-carries-own-error@L%d' % (q.fkey(f), q.short_of(f.callee(i)), f.N(c)['l'] - f.line), 'the handler is completed with an error code other than the one of the I/O attempt', f.loc(c))
+                # "until done" objects add every attempt's byte count to a member: the completion reports that total, not the last attempt's share
+                nres = [d_['ref'] for j_ in f.all_nodes() if f.N(j_)['k'] == 'DeclStmt' for d_ in f.N(j_)['decls'] if d_.get('init') is not None and f.strip(d_['init']) == i]
+                acc = [w_ for w_ in f.all_nodes() if f.N(w_)['k'] == 'CompoundAssignOperator' and f.N(w_).get('op') == '+=' and nres and f.ref_of(f.N(w_)['ch'][1]) == nres[0] and
+                       (f.ref_of(f.N(w_)['ch'][0]) or '').startswith('f:')]
+                if acc and len(a) >= 3:
+                    accf = f.ref_of(f.N(acc[0])['ch'][0])
+                    ctx.check(f.ref_of(a[-1]) == accf, R10, '%s:%s:completion-reports-the-accumulated-count@L%d' % (q.fkey(f), q.short_of(f.callee(i)), f.N(c)['l'] - f.line),
+                              'the handler is told %s instead of the bytes transferred so far in total (%s): a read / write completed in several pieces is reported short' % (f.ref_of(a[-1]), accf), f.loc(c))
     ctx.require(n10 >= 4 or ctx.violations, 'C17.R10: only %d retry sites found in booster aio' % n10)
 
     # ---------------- R11 shuffle stays inside the reported events
